@@ -10,8 +10,10 @@ Correspondence (DESIGN.md 4.4 / 5-C04), on the real `Context.make` of small plug
       reported unavailable (False, not an exception), and the faulted call did not return normally;
   (c) retries of the identical request (with further faults in the thorough tier); the last, fault-free
       retry must end with everything stored and correct.
-Both code models (save_from Pinned = as pinned, Fixed = futures inspected) are evaluated on every faulted case and
-the evidence says which one the implementation matches.
+Both code models (save_from Fixed = futures inspected, the tree since fix df54c5e; Pinned = the tree as originally
+pinned, defect D3) are evaluated on every faulted case; the implementation is expected to match Fixed.  A case in
+which it behaves like Pinned and not like Fixed (an OSError of a pooled chunk write is swallowed) is reported as a
+violation of unit `async_failure_not_swallowed` with the configuration and the fault position.
 """
 import json
 import os
@@ -39,6 +41,15 @@ D3_INPUT = {
                 "loading fails (FileNotFoundError / DataCorrupted)",
 }
 D3_UNIT = "async_failure_not_swallowed"
+# The second defect found by this check: a failure inside Saver.close on the threaded processor is lost.
+LOST_INPUT = {
+    "processor": "threaded_mailbox",
+    "fault": "OSError inside Saver.close (closing metadata flush or os.rename(<key>_temp, <key>)) after save_from's try block completed",
+    "observed": "the exception dies with the saver's mailbox thread, got_exception is not set, Context.make returns normally, nothing is stored",
+}
+LOST_UNIT = "close_failure_not_swallowed"
+# (save_from variant, close failure recorded) the implementation is expected to match: Fixed, recorded
+EXPECTED_MODEL = (1, 1)
 
 QUICK_CONFIGS = [
     dict(graph="g1", proc="single_thread", workers=None, rechunk=False),
@@ -161,8 +172,8 @@ def line_replay(allow_rm, expected, fs0, aevs):
     return " ".join(str(int(t)) if not isinstance(t, str) else t for t in toks)
 
 
-def line_request(var, cfg, chunks, upfail, rem, plan, fs0, never=0, sched=()):
-    toks = ["request", var, 0 if cfg["proc"] == "single_thread" else 1, 1 if cfg.get("workers") else 0, never]
+def line_request(var, cfg, chunks, upfail, rem, plan, fs0, never=0, sched=(), closerec=1):
+    toks = ["request", var, 0 if cfg["proc"] == "single_thread" else 1, 1 if cfg.get("workers") else 0, never, closerec]
     toks += ab.enc_pairs(chunks) + [upfail if upfail is not None else -1] + ab.enc_pairs(rem)
     if plan is None:
         toks += [-1]
@@ -260,14 +271,21 @@ def evaluate(ctx, ev, cfg, clean, case, recs, stats):
             return
         pf = property_failures(cfg, case, si, rec, last and not case.get("no_converge_check"))
         finfo = fault_info(rec)
-        judge_state = {"pf": pf, "d3": None, "reported": False}
+        judge_state = {"pf": pf, "d3": None, "lost": None, "reported": False}
 
-        def report_property(js=judge_state, rec=rec, step_id=step_id):
+        def report_property(js=judge_state, rec=rec, step_id=step_id, si=si):
             if js["reported"] or not js["pf"]:
                 return
             js["reported"] = True
             for unit, what, dt in js["pf"]:
-                if (dt is None and js["d3"]) or (dt is not None and dt in tainted):
+                if dt is None and js.get("lost"):
+                    ctx.violation(LOST_UNIT, "a failure of Saver.close (last metadata flush / final directory rename) on the saver's mailbox "
+                                  "thread is not reported to the caller: %s [%s, fired %s, outcome %s]"
+                                  % (what, cfg_name(cfg), rec["fired"], rec["outcome"]),
+                                  {"input": {"config": cfg, "steps": case["steps"][: si + 1]}, "class": LOST_INPUT,
+                                   "obs": rec["obs"], "outcome": rec["outcome"], "target": case.get("target")},
+                                  signature={"unit": LOST_UNIT, "input": LOST_INPUT})
+                elif (dt is None and js["d3"]) or (dt is not None and dt in tainted):
                     # the defect D3 (fixed in /repo by df54c5e): reported with the concrete fault position; the
                     # signature is what a known_findings.json entry of status "known" would have to match
                     ctx.violation(D3_UNIT, "Saver.save_from swallows the failure of a pooled chunk write (D3, regression of fix "
@@ -354,8 +372,9 @@ def evaluate(ctx, ev, cfg, clean, case, recs, stats):
 
             def judge2(m, line, out, var=None, k=k, aevs=aevs, fs1=fs1, d=d, rec=rec, step_id=step_id, res=res,
                        js=judge_state, plan=plan, finfo=finfo):
+                # var = (save_from variant: 0 Pinned / 1 Fixed, close failure recorded in got_exception: 0 / 1)
                 res[var] = m
-                if len(res) < 2:
+                if len(res) < 4:
                     return
                 stats["request"] += 1
                 obs = rec["obs"][d]
@@ -368,28 +387,48 @@ def evaluate(ctx, ev, cfg, clean, case, recs, stats):
                     if sync:
                         same = same and ab.norm_fs(mm["fs"]) == real["fs"] and mm.get("tr", "") == real["tr"]
                     match[v] = same
-                which = "both" if match[0] and match[1] else "pinned" if match[0] else "fixed" if match[1] else "neither"
-                stats["variant_" + which] += 1
                 worker_fault = bool(plan) and bool(finfo[3].get("worker"))
+                if match[EXPECTED_MODEL]:
+                    which = "expected"
+                elif match[(1, 0)]:
+                    which = "close_unrecorded"      # futures inspected, but a failing close() is lost (threaded)
+                elif match[(0, 1)] or match[(0, 0)]:
+                    which = "pinned"                # D3: failures of pooled chunk writes are swallowed
+                else:
+                    which = "neither"
+                stats["variant_" + which] = stats.get("variant_" + which, 0) + 1
                 if worker_fault:
-                    stats["worker_fault_" + which] += 1
-                if which == "pinned" and worker_fault and res[0]["out"] == "ok" and res[0]["vis"] == "1" \
-                        and not res[0]["load"].startswith("ok") and res[1]["out"].startswith("err"):
+                    stats["worker_fault_" + which] = stats.get("worker_fault_" + which, 0) + 1
+                if which == "pinned":
                     js["d3"] = True
                     tainted.add(d)
                     stats["d3_cases"] += 1
-                if which == "neither":
-                    ctx.violation("code_model", "neither save_from model predicts the implementation for %s: real %s, pinned %s, fixed %s"
-                                  % (k, real, res[0], res[1]),
-                                  {"input": "corr:C04/code_model/request", "case": step_id, "key": k, "real": real,
-                                   "pinned": res[0], "fixed": res[1]}, no_failing_input=not js["pf"])
+                    if not js["pf"]:
+                        ctx.violation(D3_UNIT, "the implementation behaves like the save_from model Pinned, not like Fixed, for %s: real %s, "
+                                      "expected %s" % (k, real, res[EXPECTED_MODEL]),
+                                      {"input": {"config": cfg, "steps": case["steps"][: si + 1]}, "class": D3_INPUT, "key": k},
+                                      signature={"unit": D3_UNIT, "input": D3_INPUT})
+                elif which == "close_unrecorded":
+                    js["lost"] = True
+                    stats["close_lost_cases"] = stats.get("close_lost_cases", 0) + 1
+                    if not js["pf"]:
+                        ctx.violation(LOST_UNIT, "the implementation loses a failure of Saver.close for %s: real %s, expected %s"
+                                      % (k, real, res[EXPECTED_MODEL]),
+                                      {"input": {"config": cfg, "steps": case["steps"][: si + 1]}, "class": LOST_INPUT, "key": k},
+                                      signature={"unit": LOST_UNIT, "input": LOST_INPUT})
+                elif which == "neither":
+                    ctx.violation("code_model", "no save_from model predicts the implementation for %s: real %s, models %s"
+                                  % (k, real, {str(v): mm for v, mm in res.items()}),
+                                  {"input": {"config": cfg, "steps": case["steps"][: si + 1]} if js["pf"] else "corr:C04/code_model/request",
+                                   "case": step_id, "key": k, "real": real, "models": {str(v): mm for v, mm in res.items()}},
+                                  no_failing_input=not js["pf"])
 
-            for var in (0, 1):
-                ev.ask(line_request(var, cfg, chunks, None, rem, plan, fs0),
-                       lambda m, line, out, var=var, j=judge2: j(m, line, out, var=var))
+            for var in ((0, 0), (0, 1), (1, 0), (1, 1)):
+                ev.ask(line_request(var[0], cfg, chunks, None, rem, plan, fs0, closerec=var[1]),
+                       lambda m, line, out, var=var, j=judge2, si=si: j(m, line, out, var=var))
 
         # ---- after all answers of this step: protocol rejections and the property verdict ---------
-        def finish(m=None, line=None, out=None, js=judge_state, rec=rec, step_id=step_id):
+        def finish(m=None, line=None, out=None, js=judge_state, rec=rec, step_id=step_id, si=si, report_property=report_property):
             rejects = js.get("rejects", [])
             for k, idx, prefix in rejects:
                 if js["d3"] and runner.key_dtype(k) in tainted:
@@ -611,13 +650,12 @@ def coq_state(m):
 def run(ctx):
     t_start = time.time()
     os.makedirs(TMP, exist_ok=True)
-    stats = {k: 0 for k in ("replay", "request", "rejected", "inconclusive", "variant_both", "variant_pinned", "variant_fixed",
-                            "variant_neither", "worker_fault_both", "worker_fault_pinned", "worker_fault_fixed",
-                            "worker_fault_neither", "d3_cases")}
+    stats = {k: 0 for k in ("replay", "request", "rejected", "inconclusive", "variant_expected", "variant_pinned",
+                            "variant_close_unrecorded", "variant_neither", "d3_cases", "close_lost_cases")}
     configs = thorough_configs() if ctx.thorough else QUICK_CONFIGS
     # seconds for the fault sweep (counted from its start); what does not fit is reported in the evidence
     # (anchor / constant drift escalates the quick tier: thorough fault actions, longer budget)
-    budget = float(os.environ.get("C04_BUDGET", 0) or ((24 * 60) if ctx.thorough else 150 if ctx.escalated() else 120))
+    budget = float(os.environ.get("C04_BUDGET", 0) or ((24 * 60) if ctx.thorough else 130 if ctx.escalated() else 100))
     nproc = min(16, os.cpu_count() or 4)
     dist = {}
     crossx = []
@@ -672,7 +710,7 @@ def run(ctx):
             inflight = set()
             exhausted = False
             while True:
-                while not exhausted and len(inflight) < 3 * nproc:
+                while not exhausted and len(inflight) < 2 * nproc:
                     if time.time() - t_sweep > budget:
                         exhausted = True
                         break
@@ -721,9 +759,9 @@ def run(ctx):
     ctx.coverage["priority_cases_run"] = prio_done
     ctx.coverage["cases_skipped_by_time_budget"] = skipped
     ctx.coverage["coq_crosscheck"] = {"equations": n_x, "failures": len(xfails)}
-    matches = "PINNED (failures of pooled chunk writes are swallowed: D3, the state before fix df54c5e)" if stats["worker_fault_pinned"] \
-        else "fixed (futures inspected; expected since fix df54c5e)" if stats["worker_fault_fixed"] \
-        else "undetermined (no worker-thread fault was exercised)"
+    matches = "PINNED (failures of pooled chunk writes are swallowed: D3, the state before fix df54c5e)" if stats.get("variant_pinned") \
+        else "Fixed, but a failing Saver.close is lost on the threaded processor (close_unrecorded)" if stats.get("variant_close_unrecorded") \
+        else "Fixed with close failures reported (expected), %d faulted cases at pooled writes" % stats.get("worker_fault_expected", 0)
     ctx.coverage["save_from_variant_matched"] = matches
     ctx.notes.append("Saver.save_from matches model variant: " + matches)
     if skipped:
